@@ -317,10 +317,42 @@ def unit_budgets(db, rep, cfg):
             return flat(t[1]) + flat(t[2])
         return [t]
     found = {}
-    for bi, t in v.calls():
+
+    def named(fn, t):
+        # locals that are joins keep the name the source gives them
+        if isinstance(t, tuple) and t and t[0] == 'phi':
+            return ('named', (fn.local_name(t[1]) or f'_{t[1]}'))
+        if isinstance(t, tuple):
+            return tuple(named(fn, x) if isinstance(x, tuple) else ({k: named(fn, y) for k, y in x.items()} if isinstance(x, dict) else x)
+                         for x in t)
+        return t
+
+    def subst(t, actuals):
+        if isinstance(t, tuple) and t and t[0] == 'arg' and 1 <= t[1] <= len(actuals):
+            return actuals[t[1] - 1]
+        if isinstance(t, tuple) and t and t[0] == 'proj':
+            b = subst(t[1], actuals)
+            if isinstance(b, tuple) and b and b[0] == 'agg' and isinstance(t[2], str) and t[2] in b[3]:
+                return b[3][t[2]]
+            return ('proj', b, t[2])
+        if isinstance(t, tuple):
+            return tuple(subst(x, actuals) if isinstance(x, tuple) else x for x in t)
+        return t
+    # the comparisons may sit in validate_public_input or in a stage it calls (their operands are then read back
+    # through the stage's arguments, struct fields included)
+    sites = [(v, T, None)]
+    for _, ct in v.calls():
+        c = ct['f'].get('resolved') if ct['f'].get('is_resolved') else None
+        if c in db.fns and db.fns[c].has_mir and c.startswith('swiftness_air::layout::dynamic') and not db.fns[c].compact:
+            sites.append((db.fns[c], exprtree.Trees(db, db.fns[c]), [named(v, T.operand(a)) for a in ct.get('args', [])]))
+    for hf, HT, actuals in sites:
+      for bi, t in hf.calls():
         if t['f'].get('name') != 'le' or not t['f'].get('trait', '').startswith('core::cmp'):
             continue
-        lhs, rhs = T.operand(t['args'][0]), exprtree.show(T.operand(t['args'][1]))
+        lhs, rhs = named(hf, HT.operand(t['args'][0])), named(hf, HT.operand(t['args'][1]))
+        if actuals is not None:
+            lhs, rhs = subst(lhs, actuals), subst(rhs, actuals)
+        rhs = exprtree.show(rhs)
         terms = flat(lhs)
         kind = next((k for k in UNIT_BUDGETS if k in rhs), None)
         if kind is None or len(terms) < 2:
@@ -330,8 +362,8 @@ def unit_budgets(db, rep, cfg):
             if isinstance(x, tuple) and x[0] == 'mul' and len(x) == 3 and any(isinstance(y, tuple) and y[0] == 'val' for y in x[1:]):
                 c = next(y[1] for y in x[1:] if isinstance(y, tuple) and y[0] == 'val')
                 o = next(y for y in x[1:] if not (isinstance(y, tuple) and y[0] == 'val'))
-                if isinstance(o, tuple) and o[0] == 'phi':
-                    nm = (v.local_name(o[1]) or f'_{o[1]}').replace('_copies', '')
+                if isinstance(o, tuple) and o[0] == 'named':
+                    nm = o[1].replace('_copies', '')
                 elif exprtree.show(o) == 'pow_felt(2, a1.log_n_steps)':
                     nm = 'n_steps'
                 else:
